@@ -148,7 +148,7 @@ Definition mk_xworld (c : wcfg) : xworld m2 :=
      xw_fault := fun k => assoc_nat None (map (fun x => (fst x, Some (snd x))) (c_faults c)) k |}.
 
 Definition mk_sworld (c : wcfg) : sworld m2 :=
-  {| sw_nb := c_nb c; sw_inputs := c_inputs c;
+  {| sw_nb := c_nb c; sw_np := c_np c; sw_inputs := c_inputs c;
      sw_env := fun s i => den m2_ops (env_lookup (c_env c) s i);
      sw_hasoff := c_hasoff c;
      sw_gflag := fun n => mem_string n (c_gflags c);
